@@ -521,6 +521,55 @@ def unit_attrs(ctx):
         ava = AC.to_local(acs, parsed, allow)
         cl.append(dict(id=len(cl), coq="(%s, %s)" % (cbool(allow), clist(specs, attr_spec_coq)), impl=ava_val(ava),
                        show=dict(attributes=specs, allow_unknown=allow, read=ava_val(ava))))
+    # ---- synthetic converter lists (the theorems quantify over ANY converters): several converters registered for ONE name
+    # format, knowing overlapping / disjoint wire names under different local names - which converter answers, in which order
+    fmts = [NF_UNSPEC, NF_URI, "urn:example:fmt"]
+    wires = ["urn:w:a", "urn:w:b", "URN:W:C", EPTID_OID, "w d"]
+    locs = ["a", "b", "C", "eduPersonTargetedID", "alt", "Alt2"]
+    cu, cuf = [], []
+    for i in range(120 if ctx.quick else 3000):
+        maps = []
+        shared = rng.choice(fmts)
+        for _ in range(rng.randint(1, 4)):
+            nf = shared if rng.random() < 0.7 else rng.choice(fmts)
+            fro = dict((w, rng.choice(locs)) for w in rng.sample(wires, rng.randint(0, 4)))
+            to = dict((l, rng.choice(wires)) for l in rng.sample(locs, rng.randint(0, 4)))
+            maps.append((nf, list(to.items()), list(fro.items())))
+        cacs = []
+        for nf, to, fro in maps:
+            ac = AC.AttributeConverter()
+            ac.from_dict({"identifier": nf, "to": dict(to), "fro": dict(fro)})
+            cacs.append(ac)
+        maps_coq = clist(maps, lambda m: "(%s, %s, %s)" % (cstr(m[0]), clist(m[1], lambda kv: "(%s, %s)" % (cstr(kv[0]), cstr(kv[1]))),
+                                                            clist(m[2], lambda kv: "(%s, %s)" % (cstr(kv[0]), cstr(kv[1])))))
+        specs = []
+        if rng.random() < 0.5:
+            # what an IdP holding the same converters sends
+            ident = dict((rng.choice(case_variants(rng, rng.choice(locs + ["zz"]))), [rng.choice(["v", " w ", "", "  "]) for _ in range(rng.randint(0, 3))])
+                         for _ in range(rng.randint(1, 4)))
+            nfq = rng.choice([shared, shared, rng.choice(fmts)])
+            got = AC.from_local(cacs, copy.deepcopy(ident), nfq)
+            cuf.append(dict(id=len(cuf), coq="(%s, %s, %s)" % (maps_coq, ident_coq(ident), cstr(nfq)),
+                            impl=None if got is None else [attr_obj_val(a) for a in got], show=dict(maps=maps, identity=ident, name_format=nfq)))
+            specs = [attr_obj_val(a) for a in got] if got else []
+        for _ in range(rng.randint(0 if specs else 1, 3)):
+            vs = [[rng.choice(["urn:oasis:names:tc:SAML:2.0:nameid-format:persistent", ""]), rng.choice(["", "abc", " p ", "  "])] if rng.random() < 0.3
+                  else rng.choice(["v", " w ", "", "é<&"]) for _ in range(rng.choice([0, 1, 2]))]
+            specs.append([rng.choice(case_variants(rng, rng.choice(wires)) + [" urn:w:a ", "zz"]), rng.choice([shared, shared] + fmts + [None, "urn:example:other"]), rng.choice([None, "fr"]), vs])
+        allow = rng.random() < 0.5
+        ava = AC.to_local(cacs, through_xml([attr_spec_obj(sp) for sp in specs]), allow)
+        cu.append(dict(id=len(cu), coq="(%s, %s, %s)" % (maps_coq, cbool(allow), clist(specs, attr_spec_coq)), impl=ava_val(ava),
+                       show=dict(maps=maps, attributes=specs, allow_unknown=allow, read=ava_val(ava))))
+        if len(set(m[0] for m in maps)) < len(maps):
+            ctx.count("list_to_local_any_converters:several converters share a name format")
+            ctx.nontriv(("custom-acs", json.dumps([maps, specs, allow])))
+    MAPS_T = "list (str * list (str * str) * list (str * str))"
+    ctx.correspond("from_local_any_converters", IMPORTS,
+                   "fun p : %s * identity * str => show_attributes (from_local (map from_dict (fst (fst p))) (snd (fst p)) (snd p))" % MAPS_T,
+                   "(%s * identity * str)" % MAPS_T, cuf, shard=60)
+    ctx.correspond("list_to_local_any_converters", IMPORTS,
+                   "fun p : %s * bool * list attribute => show_ava (list_to_local (map from_dict (fst (fst p))) (snd (fst p)) (snd p))" % MAPS_T,
+                   "(%s * bool * list attribute)" % MAPS_T, cu, shard=60)
     ctx.correspond("from_local", IMPORTS, "fun p : identity * str => show_attributes (from_local default_acs (fst p) (snd p))", "(identity * str)", cf, shard=60)
     ctx.correspond("list_to_local", IMPORTS, "fun p : bool * list attribute => show_ava (list_to_local default_acs (fst p) (snd p))", "(bool * list attribute)", cl, shard=60)
 
